@@ -248,9 +248,62 @@ def c01_observables(pt, params, cm, mm, grid=None, rng=None) -> Tuple[dict, list
     return impl, obs['grid']
 
 
-def request(pt_ref, params: dict, cm, mm) -> str:
-    case = {'params': dict(params), 'cm': cm or {}, 'mm': mm, 'single': []}
-    return ptgen.request_line('c03', pt_ref, case, [], ())
+_REL_RE = None
+
+
+def constraint_sx(text) -> Any:
+    """a constraint *as it is written* -> S-expression data (independent of qupulse's ParameterConstraint):
+    `lhs REL rhs` with REL one of <= >= == < > != ; the sides are parsed by sympy as arithmetic expressions"""
+    import re
+    import sympy
+    global _REL_RE
+    if _REL_RE is None:
+        _REL_RE = re.compile(r'(<=|>=|==|!=|<|>)')
+    if not isinstance(text, str):
+        return ptgen.sympy_sx(getattr(text, 'sympified_expression', text))
+    parts = _REL_RE.split(text)
+    if len(parts) != 3:
+        raise core.MachineryError('constraint not of the form lhs REL rhs: %r' % text)
+    rel = {'<=': 'le', '>=': 'ge', '==': 'eq', '!=': 'ne', '<': 'lt', '>': 'gt'}[parts[1]]
+    return [rel, ptgen.sympy_sx(sympy.sympify(parts[0])), ptgen.sympy_sx(sympy.sympify(parts[2]))]
+
+
+_CONS_POS = {'table': 4, 'point': 5, 'func': 6, 'seq': 4, 'rep': 5, 'for': 8, 'map': 6, 'amulti': 5}
+
+
+def declared_tree_sx(pt_ref, spec: dict) -> Any:
+    """the serialised reference tree with every node's constraints taken from the text the template was
+    constructed with (the tree shapes coincide: `build_ref` prevents merging)"""
+    tree = ptgen.to_sx(pt_ref)
+
+    def patch(sx_node, sp):
+        k = sp['k']
+        tag = {'aarith': 'aarith', 'amulti': 'amulti', 'for': 'for', 'map': 'map', 'par': 'par', 'rev': 'rev',
+               'arith': 'arith'}.get(k, k)
+        if sx_node[0] != tag:
+            raise core.MachineryError('reference tree and spec disagree: %s vs %s' % (sx_node[0], k))
+        if k in _CONS_POS:
+            sx_node[_CONS_POS[k]] = [constraint_sx(c) for c in (sp.get('cons') or [])]
+        if k in ('seq', 'amulti'):
+            for a, b in zip(sx_node[2], sp['subs']):
+                patch(a, b)
+        elif k == 'aarith':
+            patch(sx_node[2], sp['lhs'])
+            patch(sx_node[4], sp['rhs'])
+        elif 'body' in sp:
+            patch(sx_node[2], sp['body'])
+    patch(tree, spec)
+    return tree
+
+
+def request(pt_ref, params: dict, cm, mm, spec: Optional[dict] = None) -> str:
+    tree = declared_tree_sx(pt_ref, spec) if spec is not None else ptgen.to_sx(pt_ref)
+    fields = ['c03', 'run', ['pt', tree],
+              ['params'] + [[k, ptgen.num_frac(v)] for k, v in params.items()],
+              ['mm', 'none'] if mm is None else ['mm'] + [[k, 'none' if v is None else v] for k, v in mm.items()],
+              ['cm'] + [[k, 'none' if v is None else v] for k, v in (cm or {}).items()],
+              ['single'], ['grid']]
+    return sx(fields)
 
 
 def parse_reply(ans) -> dict:
@@ -294,7 +347,7 @@ def phase_a(desc: dict) -> Optional[dict]:
             continue
         tree['recs'] = recs
         tree['seed'] = desc['seed']
-        tree['probe'] = request(ref, tree['values'], tree['cm'], tree['mm'])
+        tree['probe'] = request(ref, tree['values'], tree['cm'], tree['mm'], tree['spec'])
         return tree
     return None
 
@@ -431,6 +484,9 @@ def evaluate_case(case: dict) -> Optional[dict]:
         ref = build_ref(case['spec'])
     except Exception as exc:  # noqa -- not constructible: not an instantiation case
         return None
+    if case.get('param_pool') is not None:
+        # "exactly the declared names": the values are drawn from the pool for whatever the implementation declares
+        case = dict(case, params={n: case['param_pool'][n] for n in sorted(pt.parameter_names) if n in case['param_pool']})
     rec: Dict[str, Any] = {'case': {k: v for k, v in case.items() if k not in ('observe',)},
                            'stream': case.get('stream', 'given')}
     rec['impl'] = run_impl(pt, case['params'], case['cm'], case['mm'])
@@ -451,7 +507,7 @@ def evaluate_case(case: dict) -> Optional[dict]:
             except Exception as exc:  # noqa
                 rec['obs_equal'] = False
                 rec['obs_diff'] = 'observation raised %s' % type(exc).__name__
-    rec['line'] = request(ref, case['params'], case['cm'], case['mm'])
+    rec['line'] = request(ref, case['params'], case['cm'], case['mm'], case['spec'])
     return rec
 
 
@@ -535,7 +591,7 @@ def judge(rec: dict) -> Tuple[List[dict], List[str]]:
 
 def summary(rec: dict) -> str:
     c = rec['case']
-    return 'stream=%s kinds=%s params=%s' % (rec['stream'], '/'.join(rec['kinds'][:8]), c['params'])
+    return 'stream=%s kinds=%s params=%s' % (rec['stream'], '/'.join(rec['kinds'][:12]) + ('/…' if len(rec['kinds']) > 12 else ''), c['params'])
 
 
 def replay_record(rec: dict, extra: Optional[dict] = None) -> dict:
@@ -799,7 +855,7 @@ def run(ctx: core.Ctx):
     # random trees: phase A (draw + probe), phase B (streams)
     depth = 4 if ctx.quick else 5
     base = ctx.fork('trees').getrandbits(40)
-    n_trees = ctx.n(260, 6000)
+    n_trees = ctx.n(300, 8000)
     descs = [{'seed': base + i, 'depth': depth if i % 3 else max(2, depth - 1)} for i in range(n_trees)]
     trees = [t for t in _pool_map(ctx, phase_a, descs) if t is not None]
     for t, a in zip(trees, core.Lean.run([t['probe'] for t in trees])):
